@@ -78,6 +78,30 @@ CHECKS.update({
     note="Interleavings are sampled (one history per document), not enumerated.",
     design="DESIGN.md section 4, C14"),
 })
+CHECKS.update({
+  "C06": dict(
+    technique="runtime monitoring: reference-model oracle (expected cues computed from the reference ISD at every observed significant time) over SRT/VTT writer executions, outputs parsed by independent strict cue parsers",
+    text="For generated documents with unique text tokens (several simultaneously active regions, several div/p per region incl. nested divs, br, "
+         "ruby, preserve/default space, sub-millisecond and unbounded intervals) and all 2 SRT + 8 VTT configurations, the written string is parsed "
+         "by a strict parser and compared cue by cue with the expected intervals (exact millisecond rounding) and token lines.",
+    note="Intervals come from the observed significant times (C02 judges those); ruby annotation text optional; text compared as token lines.",
+    design="DESIGN.md section 4, C06"),
+  "C07": dict(
+    technique="runtime monitoring: strict grammar parsers as online checkers of every writer output + per-character style runs recovered from tags vs reference computed styles; reader-produced corpus documents included",
+    text="Every SRT/VTT string produced for generated styled documents (markup-significant characters, nested/reset styles) and for documents read "
+         "from the bundled corpus is checked against the file/cue grammar (header, STYLE before cues, numbering, begin<end, order/overlap, no empty "
+         "line or '-->' in payloads, escaping, balanced non-crossing tags, CSS class rules); bold/italic/underline/colour/background runs and VTT "
+         "line/align settings are compared with the reference ISD's computed values.",
+    note="Known findings D-NESTED-STYLE-RESET and D-SRT-ARROW attributed by exact classifiers; oblique, ruby-container backgrounds, merged-cue alignment and vertical writing modes not judged.",
+    design="DESIGN.md section 4, C07"),
+  "C08": dict(
+    technique="runtime monitoring: reference CEA-608 decoder (event log of screen changes per frame) checked offline against the document the SCC reader produced, clause by clause",
+    text="Generated pop-on / roll-up / paint-on streams (any row/indent/TO, standard/special/extended characters, PAC and mid-row attributes, doubled or "
+         "single control codes, channel-2 groups, padding, parity, DF/NDF time codes) and the bundled files are decoded by an independent 608 decoder; "
+         "settled screens, pop-on/roll-up/paint-on timing windows, frame exactness, style runs, channel-2 and parity invariance are compared with the document.",
+    note="Known findings F-SCC-DUP-FRAMES and F-SCC-ROLLUP-ROW15 attributed by exact classifiers; columns, alignment heuristics and blank-cell attributes not judged.",
+    design="DESIGN.md section 4, C08"),
+})
 NOT_CLAIMED = {}
 
 def main():
